@@ -136,6 +136,7 @@ type site struct {
 }
 
 type frame struct {
+	atCall bool // invEnv is being built for a call site, not a loop header
 	cloOverride *Closure // closure to bind when inlining a callback that is not the value of the current call instruction
 	ft      *FT
 	fn      *ssa.Function
@@ -1364,6 +1365,11 @@ func (fr *frame) dominatesHeader(v ssa.Value, h *ssa.BasicBlock) bool {
 		return true
 	case ssa.Instruction:
 		b := x.Block()
+		if b == h && fr.atCall {
+			// environment of a call site inside h (callback-loop invariants): values already computed in this block
+			_, done := fr.vals[v]
+			return done
+		}
 		return b != h && b.Dominates(h)
 	}
 	return false
